@@ -77,6 +77,110 @@ func loadMutants(verif, prop string) []mutant {
 	return out
 }
 
+// benign edits: behaviour-preserving refactors (benign/index.json) on which
+// the property's rules must stay silent.
+type benignEdit struct {
+	ID         string   `json:"id"`
+	Properties []string `json:"properties"`
+	KnownAlarm *struct {
+		Rule string `json:"rule"`
+		Why  string `json:"why"`
+	} `json:"known_alarm"`
+}
+
+func loadBenign(verif, prop string) []benignEdit {
+	b, err := os.ReadFile(filepath.Join(verif, "benign/index.json"))
+	if err != nil {
+		return nil
+	}
+	var all, out []benignEdit
+	if json.Unmarshal(b, &all) != nil {
+		return nil
+	}
+	for _, e := range all {
+		for _, p := range e.Properties {
+			if p == prop {
+				out = append(out, e)
+			}
+		}
+	}
+	return out
+}
+
+// runBenign applies one benign edit to a scratch copy and runs the
+// property's quick check on it: status silent | alarm | known-alarm | skipped.
+func runBenign(self, repo, verif, oracle, prop string, e benignEdit) selfResult {
+	r := selfResult{ID: "benign/" + e.ID}
+	dir, err := os.MkdirTemp("", "redactcheck-benign-")
+	if err != nil {
+		r.Status, r.Detail = "skipped", err.Error()
+		return r
+	}
+	defer os.RemoveAll(dir)
+	tree := filepath.Join(dir, "repo")
+	vdir := filepath.Join(dir, "verif")
+	os.MkdirAll(filepath.Join(vdir, "evidence"), 0o755)
+	if kb, err := os.ReadFile(filepath.Join(verif, "known_findings.json")); err == nil {
+		os.WriteFile(filepath.Join(vdir, "known_findings.json"), kb, 0o644)
+	}
+	if err := copyTree(repo, tree); err != nil {
+		r.Status, r.Detail = "skipped", err.Error()
+		return r
+	}
+	patch := filepath.Join(verif, "benign", e.ID+".diff")
+	c2 := exec.Command("patch", "-s", "-p1", "-d", tree, "-i", patch)
+	if out, err := c2.CombinedOutput(); err != nil {
+		r.Status, r.Detail = "skipped", "benign edit no longer applies: "+firstLine(string(out))
+		return r
+	}
+	env := append(os.Environ(), "GOFLAGS=-mod=mod", "GOPROXY=off", "GOSUMDB=off", "GOTOOLCHAIN=local", "GOWORK=off")
+	build := exec.Command("go", "build", "./...")
+	build.Dir = tree
+	build.Env = env
+	if out, err := build.CombinedOutput(); err != nil {
+		r.Status, r.Detail = "skipped", "does not build: "+firstLine(string(out))
+		return r
+	}
+	cmd := exec.Command(self, "-p", prop, "-tier", "quick", "-repo", tree, "-verif", vdir, "-oracle", oracle)
+	cmd.Env = env
+	out, err := cmd.CombinedOutput()
+	txt := string(out)
+	if err == nil && !strings.Contains(txt, "VIOLATION") {
+		r.Status = "silent"
+		return r
+	}
+	r.Status = "alarm"
+	for _, l := range strings.Split(txt, "\n") {
+		if strings.Contains(l, "rule ") || strings.HasPrefix(l, "UNDECIDED") || strings.HasPrefix(l, "VACUOUS") {
+			r.Detail = firstLine(l)
+			break
+		}
+	}
+	if e.KnownAlarm != nil && strings.Contains(txt, "rule "+e.KnownAlarm.Rule+" ") {
+		r.Status = "known-alarm"
+		r.Detail = e.KnownAlarm.Rule + ": " + e.KnownAlarm.Why
+	}
+	return r
+}
+
+func runBenignAll(self, repo, verif, oracle, prop string) []selfResult {
+	es := loadBenign(verif, prop)
+	res := make([]selfResult, len(es))
+	sem := make(chan struct{}, 6)
+	var wg sync.WaitGroup
+	for i, e := range es {
+		wg.Add(1)
+		go func(i int, e benignEdit) {
+			defer wg.Done()
+			sem <- struct{}{}
+			defer func() { <-sem }()
+			res[i] = runBenign(self, repo, verif, oracle, prop, e)
+		}(i, e)
+	}
+	wg.Wait()
+	return res
+}
+
 func copyTree(src, dst string) error {
 	return filepath.Walk(src, func(p string, info os.FileInfo, err error) error {
 		if err != nil {
